@@ -447,7 +447,8 @@ Definition logged (w : wal) (o : wop) : list wentry :=
   | WAppend op k v =>
       if valid_op op && (wl_next w <? MaxSeq) then [mkW op (wl_next w) k v] else []
   | WBatch ops =>
-      if wl_next w <? MaxSeq then map (stamp (wl_next w)) ops else []
+      if (wl_next w <? MaxSeq) && forallb (fun e => valid_op (w_op e)) ops
+      then map (stamp (wl_next w)) ops else []
   | WAppendSeq op k v s =>
       if valid_op op && (s <? MaxSeq) then [mkW op s k v] else []
   | WRotate => []
@@ -464,20 +465,20 @@ Definition kv_len_ok (k v : bytes) : bool := (len k <? 2 ^ 32) && (len v <? 2 ^ 
 Definition wop_ok (o : wop) : bool :=
   match o with
   | WAppend _ k v => kv_len_ok k v
-  | WBatch ops => forallb (fun e => valid_op (w_op e) && kv_len_ok (w_key e) (w_val e)) ops
+  | WBatch ops => forallb (fun e => kv_len_ok (w_key e) (w_val e)) ops
   | WAppendSeq _ k v _ => kv_len_ok k v
   | WRotate => true
   end.
 
 (* ... and the guard in the vocabulary of wf_entry (adds wf_bytes, which no proof uses).
-   Note the valid_op conjunct for batches: wal_append_batch does not check the op types of
-   its elements, so a batch with an invalid op type is written and then stops replay. *)
+   No valid_op conjunct for batches: wal_append_batch checks every op type before it writes
+   anything, so a batch with an invalid op type is a failed operation that logs nothing. *)
 Definition kv_wf (k v : bytes) : bool :=
   (len k <? 2 ^ 32) && (len v <? 2 ^ 32) && wf_bytes k && wf_bytes v.
 Definition wop_wf (o : wop) : bool :=
   match o with
   | WAppend _ k v => kv_wf k v
-  | WBatch ops => forallb (fun e => valid_op (w_op e) && kv_wf (w_key e) (w_val e)) ops
+  | WBatch ops => forallb (fun e => kv_wf (w_key e) (w_val e)) ops
   | WAppendSeq _ k v _ => kv_wf k v
   | WRotate => true
   end.
@@ -492,8 +493,7 @@ Qed.
 Lemma wop_wf_ok : forall o, wop_wf o = true -> wop_ok o = true.
 Proof.
   intros [op k v|ops|op k v s|] H; cbn [wop_wf wop_ok] in *; try (apply kv_wf_len_ok; exact H); auto.
-  rewrite forallb_forall in *. intros e Hin. specialize (H e Hin).
-  apply andb_prop in H. destruct H as [H1 H2]. rewrite H1. cbn [andb]. apply kv_wf_len_ok. exact H2.
+  rewrite forallb_forall in *. intros e Hin. apply kv_wf_len_ok. apply H. exact Hin.
 Qed.
 
 Lemma encode_log_single : forall e, encode_log [e] = encode_entry e.
@@ -561,17 +561,20 @@ Proof.
   - (* WBatch *)
     unfold wal_step, wal_do, logged in *. cbv zeta in *. unfold wal_append_batch in *.
     destruct ops as [|e0 ops0].
-    { cbn [map]. destruct (wl_next w <? MaxSeq); apply Same; reflexivity. }
+    { cbn [map]. destruct ((wl_next w <? MaxSeq) && _); apply Same; reflexivity. }
     set (ops := e0 :: ops0) in *.
     destruct (MaxSeq <=? wl_next w) eqn:Hov.
-    + replace (wl_next w <? MaxSeq) with false in * by lia. apply Same; reflexivity.
-    + replace (wl_next w <? MaxSeq) with true by lia. cbn [fst wl_files].
+    + replace (wl_next w <? MaxSeq) with false in * by lia. cbn [andb] in *.
+      apply Same; reflexivity.
+    + replace (wl_next w <? MaxSeq) with true in * by lia. cbn [andb] in *.
+      destruct (forallb (fun e => valid_op (w_op e)) ops) eqn:Hval; cbn [negb] in *;
+        [|apply Same; reflexivity].
+      cbn [fst wl_files].
       rewrite Hfiles, encode_batch_log.
       apply app_last_encode; [exact Hne|exact Hok|].
       rewrite forallb_forall in *. intros e Hin.
       apply in_map_iff in Hin. destruct Hin as (e' & <- & Hin').
-      specialize (Ho e' Hin'). apply andb_prop in Ho. destruct Ho as [Hop Hkv].
-      apply enc_ok_intro; [exact Hop|lia|exact Hkv].
+      apply enc_ok_intro; [exact (Hval e' Hin')|lia|exact (Ho e' Hin')].
   - (* WAppendSeq *)
     unfold wal_step, wal_do, logged in *. cbv zeta in *. unfold wal_append_seq in *.
     destruct (valid_op op) eqn:Hop; cbn [negb andb] in *; [|apply Same; reflexivity].
@@ -621,13 +624,33 @@ Qed.
 
 Definition ex_ops : list wop :=
   [WAppend OpPut [1] [2]; WBatch [mkW OpPut 0 [3] [4]; mkW OpDel 0 [5] [6]]; WRotate;
-   WAppend 9 [1] [2]; WBatch []; WAppendSeq OpMerge [7] [8] 100; WAppend OpDel [9] [9]].
+   WAppend 9 [1] [2]; WBatch []; WBatch [mkW OpPut 0 [1] [1]; mkW 9 0 [1] [1]];
+   WAppendSeq OpMerge [7] [8] 100; WAppend OpDel [9] [9]].
 
 Example C09_writer_hyp_sat :
   forallb wop_wf ex_ops = true /\
   map w_seq (run_logged (mkWal 5 [[]]) ex_ops) = [5; 6; 6; 100; 101] /\
   length (wl_files (fold_left wal_step ex_ops (mkWal 5 [[]]))) = 2%nat.
 Proof. vm_compute. repeat split. Qed.
+
+(* a failed AppendBatch (overflow or an invalid op type anywhere in the batch) changes
+   neither the files nor the counter *)
+Theorem C09_batch_error_no_effect : forall w ops w' r,
+  wal_append_batch w ops = (w', r) -> (forall s, r <> WOk s) -> w' = w.
+Proof.
+  intros w ops w' r H Hr. unfold wal_append_batch in H.
+  destruct ops as [|e ops].
+  - inversion H. reflexivity.
+  - destruct (MaxSeq <=? wl_next w); [inversion H; reflexivity|].
+    destruct (negb _); [inversion H; reflexivity|].
+    inversion H. subst. exfalso. apply (Hr (wl_next w)). reflexivity.
+Qed.
+
+Example C09_batch_error_hyp_sat :
+  wal_append_batch (mkWal 5 [[1; 2]]) [mkW OpPut 0 [1] [1]; mkW 9 0 [1] [1]]
+    = (mkWal 5 [[1; 2]], WErrInvalidOp) /\
+  logged (mkWal 5 [[1; 2]]) (WBatch [mkW OpPut 0 [1] [1]; mkW 9 0 [1] [1]]) = [].
+Proof. split; reflexivity. Qed.
 
 (* ---------- C08: sequence numbers handed out by the writer ---------- *)
 
@@ -664,7 +687,8 @@ Proof.
   intros w [op k v|ops|op k v s|]; unfold wal_step, wal_do; cbv zeta;
     unfold wal_append, wal_append_batch, wal_append_seq, wal_new_file.
   - destruct (negb (valid_op op)); [cbn; lia|]. destruct (MaxSeq <=? wl_next w); cbn [fst wl_next]; lia.
-  - destruct ops; [cbn; lia|]. destruct (MaxSeq <=? wl_next w); cbn [fst wl_next]; lia.
+  - destruct ops; [cbn; lia|]. destruct (MaxSeq <=? wl_next w); cbn [fst wl_next]; [lia|].
+    destruct (negb _); cbn [fst wl_next]; lia.
   - destruct (negb (valid_op op)); [cbn; lia|]. destruct (MaxSeq <=? s); cbn [fst wl_next]; [lia|].
     destruct (wl_next w <=? s) eqn:E; lia.
   - cbn [fst wl_next]. lia.
@@ -689,7 +713,8 @@ Proof.
     intros E. inversion E. auto.
   - destruct ops as [|e ops].
     + cbn [fst snd is_empty_batch]. intros E. inversion E. split; [reflexivity|discriminate].
-    + destruct (MaxSeq <=? wl_next w); [discriminate|]. cbn [fst snd wl_next].
+    + destruct (MaxSeq <=? wl_next w); [discriminate|].
+      destruct (negb _); [discriminate|]. cbn [fst snd wl_next].
       intros E. inversion E. auto.
 Qed.
 
